@@ -120,7 +120,13 @@ def run(ctx):
             hp = ("a", 'starts_with(%s.name_, basic_string{"--no-"})' % pn)
             eqs = [a for a in logic.atoms_of(got) if "name_without_prefix()" in a and "==" in a]
             if len(eqs) != 1:
-                ctx.broken("R11.3", tm, "matches-skeleton", "expected one comparison with name_without_prefix(), found %s" % eqs, tm)
+                # no whole-name comparison of the --no- form at all: what does the function accept beyond base::matches?
+                extra_ok, cm = logic.entails([got], base, lg.axioms)
+                if extra_ok is True:
+                    ctx.bad("R11.3", tm, "reverse-name-compare", "toggle::matches accepts nothing beyond base::matches: the --no-<name> spelling is never matched", tm)
+                else:
+                    ctx.bad("R11.3", tm, "reverse-name-compare", "toggle::matches is true for --no- tokens without an equality between name_without_prefix() and the toggle's name (%s): "
+                            "`--no-<other>` matches every toggle whose name merely starts <other>, which is then forced to 0 although it never occurred" % logic.show(got)[:200], tm)
             else:
                 ok_cmp = eqs[0] in ("(%s.name_without_prefix() == this.name())" % pn, "(this.name() == %s.name_without_prefix())" % pn,
                                     "(%s.name_without_prefix() == this.name_)" % pn)
